@@ -35,6 +35,7 @@ fn c08_percent_decode() {
 // @verif prop=C08 tier=quick bounds="cookie valid::value: input 0..=4 arbitrary bytes"
 #[kani::proof]
 #[kani::stub(alloc::fmt::format, stubs::format_stub)]
+#[kani::stub(core::str::from_utf8, stubs::from_utf8_model)]
 #[kani::unwind(7)]
 fn c08_cookie_value() {
     let (b, len) = sym_input::<4>();
